@@ -26,7 +26,7 @@ theorem structure_C06 :
 
 /-- C08: only ordinary log events are counted; the Flush path reports the counters before it removes contexts -/
 theorem structure_C08 : Extracted.countsOnlyLogEvents = true ∧ Extracted.reportBeforeFlushCleanup = true ∧
-    Extracted.cleanupKeepsUnreported = true := by decide
+    Extracted.cleanupKeepsUnreported = true ∧ Extracted.counterResetAtomic = true := by decide
 
 /-- C10: per-event catch (std::exception and catch-all), catch-all in the formatting step, per-sink flush catch -/
 theorem structure_C10 :
